@@ -39,9 +39,10 @@ def make_args(gate, rng, mode):
         elif a.startswith("T1"):
             v = 0.0
         elif a.startswith("T2"):
-            v = rng.uniform(5e-6, 300e-6)
+            v = rng.choice([rng.uniform(5e-6, 300e-6), rng.uniform(5e-6, 300e-6), 0.0])     # dephasing on, or off as well
         elif a in ("p", "p_single_ctr", "p_single_trg"):
-            v = 0.01 if mode == "r2" else rng.uniform(1e-5, 3e-3)
+            # incl. tiny but non-zero depolarising errors (the exponent of the noise factor is then of size 1e-6 .. 1e-4)
+            v = 0.01 if mode == "r2" else rng.choice([rng.uniform(1e-5, 3e-3), 10.0 ** rng.uniform(-12, -8)])
         elif a in ("p_cnot", "p_ecr"):
             v = 0.001 if mode == "r2" else rng.uniform(0.03, 0.12)
         elif a == "p_cr":
@@ -79,6 +80,33 @@ def oracle(desc, gate, args, seed, mode):
     return None, d
 
 
+def typed_angle_sequence(desc, rng):
+    """ONE gate-set object is asked for zero-noise gates first with single-precision angles (np.float32, exactly representable
+    values), then with the equal double-precision angles: the second answers must be the noise-free gates to 1e-12."""
+    from quantum_gates._gates.gates import NoiseFreeGates
+    gs = gc.build_gate_set(desc)
+    nf = NoiseFreeGates()
+    vals = [0.5, 0.25, -0.75, 1.5, -0.125]
+    for gate in ("X", "SX", "single_qubit_gate", "CNOT", "CNOT_inv", "ECR", "ECR_inv", "CR"):
+        names = gc.GATE_ARGS[gate]
+        base = make_args(gate, rng, "zero")
+        ang = {a: rng.choice(vals) for a in names if a == "theta" or a.startswith("phi")}
+        for caster in (np.float32, float):
+            args = [caster(ang[a]) if a in ang else base[a] for a in names]
+            np.random.seed(3)
+            try:
+                with np.errstate(all="ignore"):
+                    G = np.array(getattr(gs, gate)(*args), dtype=complex)
+            except Exception as e:              # noqa
+                return gate, f"raised {type(e).__name__}: {e}"
+        ideal = np.array(getattr(nf, gate)(*[float(ang[a]) if a in ang else base[a] for a in names]), dtype=complex)
+        d = float(np.max(np.abs(G - ideal))) if np.isfinite(G).all() else float("nan")
+        if not d <= 1e-12:
+            return gate, (f"zero-noise {gate} at double-precision angles {ang} differs from the noise-free gate by {d:.3e} after the same gate-set "
+                          "object had been asked with the equal single-precision angles")
+    return None
+
+
 def main(ctx):
     cov = ctx.coverage
     ir, fmeta, gmeta, tie_broken = gc.regenerate()
@@ -102,6 +130,11 @@ def main(ctx):
                         worst[mode] = max(worst[mode], d)
                     if bad:
                         fails.append(({"kind": "oracle", "gate": gate, "mode": mode}, desc, gate, args, seed, mode, bad))
+    for desc in descs:
+        r = typed_angle_sequence(desc, rng)
+        ctx.count()
+        if r:
+            fails.append(({"kind": "oracle", "gate": r[0], "mode": "typed-angle-sequence"}, desc, r[0], {}, 3, "zero", r[1]))
     # the region where the derived cross-resonance error is negative (DESIGN.md section 6, R2)
     for gate in ("CNOT", "CNOT_inv", "ECR", "ECR_inv"):
         args = make_args(gate, rng, "r2")
